@@ -343,6 +343,34 @@ def genStmt : Stmt → Nat → List CIns × Nat
 def genFn (st : Stmt) (count0 : Nat) : List CIns :=
   (genStmt st count0).1 ++ [.label .ret]
 
+/-- `genStmt` with the function epilogue label, also returning the advanced `count()` -/
+def genFnC (st : Stmt) (count0 : Nat) : List CIns × Nat :=
+  let r := genStmt st count0
+  (r.1 ++ [.label .ret], r.2)
+
+/-- a translation unit of `void f_i(void) { body_i }` definitions: `parse()` handles them in
+    order of definition (one name counter); `emit_text` walks the `globals` list, which
+    `new_gvar` builds by prepending, so code is generated — and `count()` advances — in
+    **reverse** order of definition. -/
+def parseUnit : Nat → List SStmt → Except PErr (List Stmt × Nat)
+  | u, [] => .ok ([], u)
+  | u, f :: fs =>
+    match parseFn u f with
+    | .error e => .error e
+    | .ok (st, u1) =>
+      match parseUnit u1 fs with
+      | .error e => .error e
+      | .ok (sts, u2) => .ok (st :: sts, u2)
+
+/-- code of the functions listed in *emission* order -/
+def genUnitRev : List Stmt → Nat → List (List CIns)
+  | [], _ => []
+  | st :: r, c => let (code, c1) := genFnC st c; code :: genUnitRev r c1
+
+/-- code per function, in definition order -/
+def genUnit (sts : List Stmt) (count0 : Nat) : List (List CIns) :=
+  (genUnitRev sts.reverse count0).reverse
+
 /-! ### printing (shared syntax of Model/Asm.lean) -/
 
 def Lbl.render (fn : String) : Lbl → String
